@@ -287,6 +287,23 @@ def fold(node, env=None, resolver=None):
             except Exception as e:
                 raise Unknown(str(e))
         fname = ast.unparse(fn)
+        if fname in ("namedtuple", "collections.namedtuple") and len(args) == 2:
+            import collections
+
+            try:
+                return collections.namedtuple(args[0], args[1])
+            except Exception as e:
+                raise Unknown(str(e))
+        if isinstance(fn, ast.Name) and fn.id not in _PURE_BUILTINS:
+            try:
+                ctor = f(fn)
+            except Unknown:
+                ctor = None
+            if isinstance(ctor, type) and issubclass(ctor, tuple) and hasattr(ctor, "_fields"):
+                try:
+                    return ctor(*args, **kwargs)
+                except Exception as e:
+                    raise Unknown(str(e))
         if fname in ("chain.from_iterable", "itertools.chain.from_iterable") and len(args) == 1:
             return [y for x in args[0] for y in x]
         if fname in ("chain", "itertools.chain"):
@@ -402,7 +419,16 @@ class ModuleEnv(object):
             if r is None:
                 raise Unknown(".".join(chain))
             if r.startswith("cdd."):
-                return self.value(r)
+                try:
+                    return self.value(r)
+                except Unknown:
+                    # field of a folded namedtuple: cdd.x.TABLE.field
+                    base, _, fld = r.rpartition(".")
+                    if base.startswith("cdd.") and self.index.module_var(base) is not None:
+                        v = self.value(base)
+                        if isinstance(v, tuple) and hasattr(v, "_fields") and fld in v._fields:
+                            return getattr(v, fld)
+                    raise
             known = {"os.path.sep": "/", "os.extsep": ".", "os.path.extsep": "."}
             if r in known:
                 return known[r]
